@@ -279,6 +279,47 @@ def applyOp (op : Operation) (cur change : Nat) : Nat :=
 
 /-! ### transition / update_counter (mutually recursive, structural on fuel) -/
 
+/-- the state-change block of `transition`: when the sampled state differs from the current one,
+    set it and resample the limit -/
+def enterState (mi : Nat) (m : Machine) (cur next : Nat) (s : Fw σ) : Fw σ :=
+  if cur ≠ next then
+    let s := s.modRt mi (fun r => { r with currentState := next })
+    match m.states[next]? with
+    | none => s.withFault .oob
+    | some nst =>
+      match nst.action with
+      | some a =>
+        let (l, s) := sampleLimit ρ a s
+        s.modRt mi (fun r => { r with stateLimit := l })
+      | none => s.modRt mi (fun r => { r with stateLimit := STATE_LIMIT_MAX })
+  else s
+
+/-- record a signal from machine `mi` -/
+def signalFrom (mi : Nat) (s : Fw σ) : Fw σ :=
+  { s with signalPending := match s.signalPending with
+      | none => some (.allExcept mi)
+      | some _ => some .all }
+
+/-- counter A part of `update_counter`; returns the new framework and whether A was zeroed -/
+def applyCounterA (mi : Nat) (c : Option Counter) (oldA oldB : Nat) (s : Fw σ) : Fw σ × Bool :=
+  match c with
+  | none => (s, false)
+  | some c =>
+    let (change, s) := if c.copy then (oldB, s) else sampleValue ρ c s
+    let newA := applyOp c.operation oldA change
+    let s := s.modRt mi (fun r => { r with counterA := newA })
+    if oldA ≠ 0 && newA = 0 && !s.zeroedA then ({ s with zeroedA := true }, true) else (s, false)
+
+/-- counter B part of `update_counter` -/
+def applyCounterB (mi : Nat) (c : Option Counter) (oldA oldB : Nat) (s : Fw σ) : Fw σ × Bool :=
+  match c with
+  | none => (s, false)
+  | some c =>
+    let (change, s) := if c.copy then (oldA, s) else sampleValue ρ c s
+    let newB := applyOp c.operation oldB change
+    let s := s.modRt mi (fun r => { r with counterB := newB })
+    if oldB ≠ 0 && newB = 0 && !s.zeroedB then ({ s with zeroedB := true }, true) else (s, false)
+
 mutual
 
 /-- returns the new framework and `true` iff `StateChange::Changed` -/
@@ -296,44 +337,28 @@ def transition : Nat → Nat → Event → Fw σ → Fw σ × Bool
       | none => (s.withFault .oob, false)
       | some none => (s, false)
       | some (some vec) =>
-        let (rbits, g) := ρ.u s.rng
-        let s := ({ s with rng := g }).push (.draw rbits)
-        match sampleState vec rbits with
+        let d := ρ.u s.rng
+        let s := ({ s with rng := d.2 }).push (.draw d.1)
+        match sampleState vec d.1 with
         | none => (s, false)
         | some next =>
           let s := s.push (.sampled mi ev.toNat next)
           if next = STATE_END then
             (s.modRt mi (fun r => { r with currentState := STATE_END }), true)
-          else if next = STATE_SIGNAL then
-            ({ s with signalPending := match s.signalPending with
-                | none => some (.allExcept mi)
-                | some _ => some .all }, false)
+          else if next = STATE_SIGNAL then (signalFrom mi s, false)
           else
-            let cur := r.currentState
-            -- state change: set state and resample the limit
-            let s :=
-              if cur ≠ next then
-                let s := s.modRt mi (fun r => { r with currentState := next })
-                match m.states[next]? with
-                | none => s.withFault .oob
-                | some nst =>
-                  match nst.action with
-                  | some a =>
-                    let (l, s) := sampleLimit ρ a s
-                    s.modRt mi (fun r => { r with stateLimit := l })
-                  | none => s.modRt mi (fun r => { r with stateLimit := STATE_LIMIT_MAX })
-              else s
+            let s := enterState ρ mi m r.currentState next s
             match s.rt[mi]? with
             | none => (s.withFault .oob, false)
             | some r1 =>
             match belowActionLimits s.g r1 m with
             | none => (s.withFault (if m.states[r1.currentState]?.isNone then .oob else .durOverflow), false)
             | some below =>
-            let (s, allow, chg) := updateCounter fuel mi s
-            let s := if allow && below then scheduleAction ρ mi next s else s
+            let res := updateCounter fuel mi s
+            let s := if res.2.1 && below then scheduleAction ρ mi next res.1 else res.1
             match s.rt[mi]? with
             | none => (s.withFault .oob, false)
-            | some r2 => (s, !(cur == r2.currentState && !chg))
+            | some r2 => (s, !(r.currentState == r2.currentState && !res.2.2))
     | _, _ => (s.withFault .oob, false)
 
 /-- returns (framework, allow_schedule, state_changed) -/
@@ -345,32 +370,14 @@ def updateCounter : Nat → Nat → Fw σ → Fw σ × Bool × Bool
       match m.states[r.currentState]? with
       | none => (s.withFault .oob, true, false)
       | some st =>
-        let oldA := r.counterA
-        let oldB := r.counterB
-        -- counter A
-        let (s, zA) :=
-          match st.counterA with
-          | none => (s, false)
-          | some c =>
-            let (change, s) := if c.copy then (oldB, s) else sampleValue ρ c s
-            let newA := applyOp c.operation oldA change
-            let s := s.modRt mi (fun r => { r with counterA := newA })
-            if oldA ≠ 0 && newA = 0 && !s.zeroedA then ({ s with zeroedA := true }, true) else (s, false)
-        -- counter B
-        let (s, zB) :=
-          match st.counterB with
-          | none => (s, false)
-          | some c =>
-            let (change, s) := if c.copy then (oldA, s) else sampleValue ρ c s
-            let newB := applyOp c.operation oldB change
-            let s := s.modRt mi (fun r => { r with counterB := newB })
-            if oldB ≠ 0 && newB = 0 && !s.zeroedB then ({ s with zeroedB := true }, true) else (s, false)
-        if zA || zB then
-          let (s, chg) := transition fuel mi .counterZero s
-          match s.actions[mi]? with
-          | none => (s.withFault .oob, true, chg)
-          | some a => (s, a.isNone, chg)
-        else (s, true, false)
+        let ra := applyCounterA ρ mi st.counterA r.counterA r.counterB s
+        let rb := applyCounterB ρ mi st.counterB r.counterA r.counterB ra.1
+        if ra.2 || rb.2 then
+          let res := transition fuel mi .counterZero rb.1
+          match res.1.actions[mi]? with
+          | none => (res.1.withFault .oob, true, res.2)
+          | some a => (res.1, a.isNone, res.2)
+        else (rb.1, true, false)
     | _, _ => (s.withFault .oob, true, false)
 
 end
